@@ -170,6 +170,10 @@ pub fn run<P: Prop>(p: &P, opts: &Opts) -> i32 {
     if let Some(path) = &opts.replay {
         return replay(p, path);
     }
+    // ends the run (machinery exit, never a verdict) when the subject does not return: checks that run the compiler
+    // in-process have no other defence against a change that makes it loop forever
+    let _watchdog = stall_watchdog(id);
+    let phase = InFlight::enter(&"oracle self-test");
     let selftests = match p.selftest() {
         Ok(n) => n,
         Err(e) => {
@@ -177,7 +181,13 @@ pub fn run<P: Prop>(p: &P, opts: &Opts) -> i32 {
             return 2;
         }
     };
+    drop(phase);
+    // enumeration may include batch compilations by rustc (C01, C03, C07): its own, longer limit
+    let phase = InFlight::enter(&"enumeration");
+    ENUMERATING.store(true, std::sync::atomic::Ordering::SeqCst);
     let mut cases = p.enumerate(opts.tier, opts.seed);
+    ENUMERATING.store(false, std::sync::atomic::Ordering::SeqCst);
+    drop(phase);
     let mut capped = false;
     if let Some(m) = opts.max_cases {
         if cases.len() > m {
@@ -193,6 +203,7 @@ pub fn run<P: Prop>(p: &P, opts: &Opts) -> i32 {
         .par_iter()
         .map(|c| {
             let h = fnv(&serde_json::to_string(c).unwrap_or_default());
+            let _in_flight = InFlight::enter(c);
             match crate::common::guarded(|| p.check(c)) {
                 Ok(r) => Ok((r, h)),
                 Err((m, l)) => Err(format!("harness panic at {l}: {m}")),
@@ -407,4 +418,57 @@ pub fn replay<P: Prop>(p: &P, path: &str) -> i32 {
         println!("recorded discrepancy does not occur on this tree");
         0
     }
+}
+
+
+// ------------------------------------------------------------------------------------------------ stall watchdog
+static PROGRESS: std::sync::atomic::AtomicU64 = std::sync::atomic::AtomicU64::new(0);
+static ENUMERATING: std::sync::atomic::AtomicBool = std::sync::atomic::AtomicBool::new(false);
+fn in_flight() -> &'static std::sync::Mutex<std::collections::HashMap<u64, String>> {
+    static M: std::sync::OnceLock<std::sync::Mutex<std::collections::HashMap<u64, String>>> = std::sync::OnceLock::new();
+    M.get_or_init(|| std::sync::Mutex::new(std::collections::HashMap::new()))
+}
+struct InFlight(u64);
+impl InFlight {
+    fn enter<C: Serialize>(c: &C) -> InFlight {
+        static NEXT: std::sync::atomic::AtomicU64 = std::sync::atomic::AtomicU64::new(0);
+        let id = NEXT.fetch_add(1, std::sync::atomic::Ordering::SeqCst);
+        let text: String = serde_json::to_string(c).unwrap_or_default().chars().take(700).collect();
+        in_flight().lock().unwrap().insert(id, text);
+        InFlight(id)
+    }
+}
+impl Drop for InFlight {
+    fn drop(&mut self) {
+        in_flight().lock().unwrap().remove(&self.0);
+        PROGRESS.fetch_add(1, std::sync::atomic::Ordering::SeqCst);
+    }
+}
+/// exits with the machinery code when no case finishes for VERIF_STALL_S seconds (default 300) while cases are in flight
+fn stall_watchdog(id: &str) -> std::thread::JoinHandle<()> {
+    let id = id.to_string();
+    let limit: u64 = std::env::var("VERIF_STALL_S").ok().and_then(|v| v.parse().ok()).unwrap_or(300);
+    std::thread::spawn(move || {
+        let mut last = PROGRESS.load(std::sync::atomic::Ordering::SeqCst);
+        let mut since = Instant::now();
+        loop {
+            std::thread::sleep(std::time::Duration::from_secs(2));
+            let now = PROGRESS.load(std::sync::atomic::Ordering::SeqCst);
+            let busy = !in_flight().lock().unwrap().is_empty();
+            if now != last || !busy {
+                last = now;
+                since = Instant::now();
+                continue;
+            }
+            let limit = if ENUMERATING.load(std::sync::atomic::Ordering::SeqCst) { limit.max(1) * 12 } else { limit };
+            if since.elapsed().as_secs() >= limit {
+                let cases: Vec<String> = in_flight().lock().unwrap().values().take(3).cloned().collect();
+                eprintln!("MACHINERY: [{id}] no case finished for {limit} s; the subject does not return on (up to 3 of the cases in flight):");
+                for c in cases {
+                    eprintln!("  {c}");
+                }
+                std::process::exit(2);
+            }
+        }
+    })
 }
